@@ -60,6 +60,10 @@ def programs(rnd, filters, tier):
     for _ in range(400 if tier == "quick" else 6000):
         f1, f2 = rnd.choice(names), rnd.choice(names)
         a1, a2 = rnd.choice(ARGS.get(f1, [""])), rnd.choice(ARGS.get(f2, [""]))
+        if f1 == "urlize" and f2 == "trim" and a2:
+            # trim(chars) strips the anchor's own delimiters: what remains is urlize's markup without its brackets,
+            # whose attribute quotes the scanner cannot tell from leaked ones (no data character is involved)
+            continue
         add("{{ " + f"{rnd.choice(SUBJECTS)}|{f1}{a1}|{f2}{a2}" + " }}", tag=f"{f1}|{f2}")
     # operators, string methods, format strings
     ops = ["['<b>\\'\"']", "{'k': '<v>\"'}", "('<a>',)", "'<b>'|list", "'a<b'|batch(2)|list", "['<c>'] if true", "[['<d>']]", "{'<k>': 1}",
@@ -160,7 +164,8 @@ def run(ck):
     ck.extra["scan_outputs_validated"] = len(rendered)
     ck.extra["scan_programs_that_raised"] = errors
     ck.extra.setdefault("excluded_shapes", []).extend(["|safe (explicit marking)", "|tojson (documented to emit JSON quotes; see C24)",
-                                                         "Markup data containing metacharacters (already marked safe by the application)"])
+                                                         "Markup data containing metacharacters (already marked safe by the application)",
+                                                         "urlize followed by trim(chars) (the anchor markup itself is cut)"])
     if rendered:
         ck.sample({"scan_program": pmap[rendered[0]["id"]]["src"], "output": rendered[0]["text"][:120]})
 
